@@ -83,4 +83,7 @@ theorem pressureS0_jump_within_tolerance (s : EOS) (ic : NohIC) (œÅ x D tol : ‚Ñ
   obtain ‚ü®h0, h1, h2‚ü© := abs_le_of_norm3_le h
   exact defects_le hM hMo hE h0 h1 h2
 
+/-- non-vacuity: the norm hypothesis holds with tol = 0 at an exact root (all components zero) -/
+example : Real.sqrt ((0 : ‚Ñù) ^ 2 + 0 ^ 2 + 0 ^ 2) ‚â§ 0 := by norm_num
+
 end EPV.C02
